@@ -11,6 +11,7 @@ import (
 	"pgregory.net/rapid"
 	"verif.local/harness/hx"
 	"verif.local/simrt"
+	simsync "verif.local/simrt/simsync"
 )
 
 // clock program: the k-th clock reading = previous reading + delta of the segment k falls in;
@@ -27,7 +28,9 @@ type phase struct {
 
 type C06Scenario struct {
 	Knobs     hx.SimKnobs `json:"knobs"`
-	Gen       string      `json:"gen"` // hard | mono | nano
+	Gen       string      `json:"gen"` // hard | mono | nano | nanonl (the lock-free variant under a lock of the caller's)
+	NanoStart int         `json:"nano_start"` // nano: 0 -> starts at 0; 1 -> starts one hour ahead of the clock (a persisted id of a faster clock)
+	BadNode   int         `json:"bad_node"`   // hard/mono: 1 -> node -1, 2 -> node max+1, 3 -> 2*max+1: the constructor must refuse (else ids carry a wrong node)
 	NodeBits  uint8       `json:"node_bits"`
 	AtLowest  bool        `json:"node_at_lowest"`
 	EpochKind int         `json:"epoch_kind"` // 0: 2000-01-01, 1: repository default (2021), 2: 1 ms before the first reading
@@ -41,13 +44,18 @@ const baseNs = int64(1700000000123456789)
 
 func drawC06(rt *rapid.T) interface{} {
 	sc := &C06Scenario{}
-	sc.Gen = rapid.SampledFrom([]string{"hard", "hard", "mono", "nano"}).Draw(rt, "gen")
+	sc.Gen = rapid.SampledFrom([]string{"hard", "hard", "hard", "mono", "mono", "nano", "nanonl"}).Draw(rt, "gen")
 	sc.NodeBits = rapid.SampledFrom([]uint8{8, 9, 10}).Draw(rt, "bits")
 	sc.AtLowest = rapid.Bool().Draw(rt, "atlowest")
 	sc.EpochKind = rapid.IntRange(0, 2).Draw(rt, "epoch")
 	max := int64(1)<<sc.NodeBits - 1
 	sc.Node = rapid.SampledFrom([]int64{0, 1, max, max - 1, max / 2, 5}).Draw(rt, "node")
 	sc.MinKind = rapid.IntRange(0, 1).Draw(rt, "min")
+	sc.NanoStart = rapid.IntRange(0, 1).Draw(rt, "nanostart")
+	if rapid.IntRange(0, 11).Draw(rt, "badnode") == 0 {
+		sc.BadNode = rapid.IntRange(1, 3).Draw(rt, "badkind")
+		sc.Node = []int64{-1, max + 1, 2*max + 1}[sc.BadNode-1]
+	}
 	// clock program
 	var deltas []int64
 	switch sc.Gen {
@@ -98,6 +106,18 @@ type gen interface{ Generate() int64 }
 type nanoGen struct{ n *nano.UnixNanoID }
 
 func (g nanoGen) Generate() int64 { return g.n.GenID() }
+
+// the lock-free variant: "lock control by caller" - the callers share a (simulated) mutex of their own
+type nanoNoLockGen struct {
+	n  *nano.UnixNanoNoLockID
+	mu *simsync.Mutex
+}
+
+func (g nanoNoLockGen) Generate() int64 {
+	g.mu.Lock()
+	defer g.mu.Unlock()
+	return g.n.GenID()
+}
 
 func runC06(t *testing.T, sci interface{}, keepLog bool) *hx.Outcome {
 	sc := sci.(*C06Scenario)
@@ -153,10 +173,19 @@ func runC06(t *testing.T, sci interface{}, keepLog bool) *hx.Outcome {
 		var maxReturned int64 = -1 << 62
 		seen := map[int64]bool{}
 		var lastIssued int64
+		nanoStart := int64(0)
+		if sc.NanoStart == 1 && (sc.Gen == "nano" || sc.Gen == "nanonl") {
+			// the generator starts from a value of a clock that ran ahead: every call takes the counting path
+			nanoStart = baseNs + 3600_000_000_000
+		}
 		build := func(min int64) {
 			switch sc.Gen {
 			case "hard":
 				n, err := snowflake.NewNode(sc.Node, min)
+				if err != nil && sc.BadNode != 0 {
+					s.Count("node-out-of-range-refused")
+					return
+				}
 				if err != nil {
 					s.Fail("newnode-error", "NewNode(%d, %d): %v", sc.Node, min, err)
 					return
@@ -164,13 +193,19 @@ func runC06(t *testing.T, sci interface{}, keepLog bool) *hx.Outcome {
 				g = n
 			case "mono":
 				n, err := snowflake.NewMonoNode(sc.Node)
+				if err != nil && sc.BadNode != 0 {
+					s.Count("node-out-of-range-refused")
+					return
+				}
 				if err != nil {
 					s.Fail("newnode-error", "NewMonoNode(%d): %v", sc.Node, err)
 					return
 				}
 				g = n
+			case "nanonl":
+				g = nanoNoLockGen{nano.NewUnixNanoNoLockID(nanoStart), &simsync.Mutex{}}
 			default:
-				g = nanoGen{nano.NewUnixNanoID(0)}
+				g = nanoGen{nano.NewUnixNanoID(nanoStart)}
 			}
 		}
 		min := int64(0)
@@ -185,7 +220,7 @@ func runC06(t *testing.T, sci interface{}, keepLog bool) *hx.Outcome {
 			maxReturned = min
 		}
 		build(min)
-		if s.Failed() {
+		if s.Failed() || g == nil {
 			return
 		}
 		prevSign := int64(0)
@@ -227,7 +262,7 @@ func runC06(t *testing.T, sci interface{}, keepLog bool) *hx.Outcome {
 							maxReturned = id
 						}
 						lastIssued = maxReturned
-						if sc.Gen != "nano" {
+						if sc.Gen == "hard" || sc.Gen == "mono" {
 							tf, node, _ := snowflake.IDFields(id)
 							if node != sc.Node {
 								s.Fail("wrong-node-field", "id %d carries node %d, configured node is %d", id, node, sc.Node)
@@ -295,11 +330,11 @@ func TestC06(t *testing.T) {
 		Draw:        drawC06,
 		NewScenario: func() interface{} { return &C06Scenario{} },
 		Run:         runC06,
-		Real:        []string{"idgen/snowflake HardNode, MonoNode, IDFields (simgen-transformed)", "idgen/nano.UnixNanoID (simgen-transformed)"},
+		Real:        []string{"idgen/snowflake HardNode, MonoNode, IDFields (simgen-transformed)", "idgen/nano.UnixNanoID and UnixNanoNoLockID (simgen-transformed)"},
 		Stubs:       []string{"time (simtime: every Now/Since is the next reading of a drawn clock program: stalls, backward and forward jumps, ticks)", "sync (simsync.Mutex)", "goroutine scheduling (simrt)", "snowflake layout installed through the verif-tagged VerifSetConfig"},
-		Rule: "scenario = generator (wall-clock node, monotonic node, unix-nano) x layout (node bits 8/9/10, node-at-lowest, 3 epochs, node number at the edges) x clock program (1-6 segments of (delta, reads): 0, +-1ns..+-1h, +1y) x 1-3 phases of 1-4 concurrent callers (1-40 calls; 1 in 20 runs up to 4200 calls per caller to cross the 4096-step wrap) with optional restart from the last issued id x scheduler knobs/tape; " +
+		Rule: "scenario = generator (wall-clock node, monotonic node, unix-nano, lock-free unix-nano under the callers' own lock; unix-nano starting at 0 or one hour ahead of the clock) x layout (node bits 8/9/10, node-at-lowest, 3 epochs, node number at the edges; 1 in 12: a node number outside the layout, which the constructor must refuse) x clock program (1-6 segments of (delta, reads): 0, +-1ns..+-1h, +1y) x 1-3 phases of 1-4 concurrent callers (1-40 calls; 1 in 20 runs up to 4200 calls per caller to cross the 4096-step wrap) with optional restart from the last issued id x scheduler knobs/tape; " +
 			"non-trivial = >=3 calls; distinct = distinct event-log hash",
-		Probes: []string{"gen-hard", "gen-mono", "gen-nano", "restart", "clock-went-backwards", "clock-stalled", "runs-crossing-step-wrap"},
+		Probes: []string{"gen-hard", "gen-mono", "gen-nano", "gen-nanonl", "node-out-of-range-refused", "restart", "clock-went-backwards", "clock-stalled", "runs-crossing-step-wrap"},
 		Assumptions: []string{"the monotonic node is driven by non-decreasing clock programs only (real Go computes Since on the monotonic reading); its spin loop needs a clock that advances per read",
 			"forward jumps stay inside the timestamp width of the layout"},
 	})
